@@ -80,7 +80,7 @@ class Table:
         return [p for p in POOL if self.present[p]]
 
 
-@harness("C04.iter", quick=[dict(K=2)], thorough=[dict(K=3), dict(K=4)])
+@harness("C04.iter", quick=[dict(K=2)], thorough=[dict(K=3), dict(K=4), dict(K=5)])
 def iter_(ctx, K):
     k = simk.Kernel(ctx)
     simk.system_files(k)
